@@ -610,3 +610,19 @@ Theorem tree_geff_part_frame A f ks ks' a ch a' ch' :
 Proof. intros H H' Ha Hn He. unfold tree_of_keys. rewrite H, H'. cbn [option_map]. eexists. eexists. split; [reflexivity|]. split; [reflexivity|].
   rewrite !zgeff_part_abs. pose proof (geff_part_frame _ _ _ _ _ _ _ H H' Ha Hn He) as Hg. unfold geff_part in Hg. cbn [jattr jchild] in Hg.
   inversion Hg as [[H1 H2 H3]]. rewrite Ha, H2, H3. reflexivity. Qed.
+
+(* ---------- keys as strings ---------- *)
+Lemma split_slash_free x : slash_free x = true -> split_slash x = [x].
+Proof. induction x as [|c r IH]; cbn; [reflexivity|]. intro H. apply andb_true_iff in H. destruct H as [Hc Hr].
+  apply negb_true_iff in Hc. rewrite Hc, (IH Hr). reflexivity. Qed.
+
+Lemma split_slash_app x rest : slash_free x = true -> split_slash (x ++ "/" ++ rest)%string = x :: split_slash rest.
+Proof. induction x as [|c r IH]; cbn; [reflexivity|]. intro H. apply andb_true_iff in H. destruct H as [Hc Hr].
+  apply negb_true_iff in Hc. rewrite Hc. cbn in IH. rewrite (IH Hr). reflexivity. Qed.
+
+Theorem split_join_key k : k <> [] -> forallb slash_free k = true -> split_slash (key_string k) = k.
+Proof. unfold key_string. induction k as [|x r IH]; intros Hne H; [contradiction|].
+  cbn [forallb] in H. apply andb_true_iff in H. destruct H as [Hx Hr]. destruct r as [|y r'].
+  - cbn [join]. apply split_slash_free. exact Hx.
+  - change (join "/" (x :: y :: r')) with (String.append x (String.append "/" (join "/" (y :: r')))).
+    rewrite (split_slash_app _ _ Hx), IH; [reflexivity | discriminate | exact Hr]. Qed.
